@@ -28,12 +28,14 @@ def _build(tier="quick"):
 
     c_lnodes.register(reg)
     c_lnodes.register_dtypes(reg)
+    c_lnodes.register_index(reg)
     from contracts import c_symbols
 
     c_symbols.register(reg)
     from contracts import c_common
 
     c_common.register(reg, tier)
+    c_common.register_unbounded(reg)
     from contracts import c_options
 
     c_options.register(reg)
